@@ -106,7 +106,7 @@ static std::string valueJson(const Value& cv, int depth = 0) {
   case Type::COMPLEX: {
     Complex* c = v.complex();
     char b[64]; snprintf(b, sizeof b, "%p", c->instance());
-    return std::string("{\"t\":\"obj\",\"mod\":") + std::to_string((int)c->typeId()) + ",\"h\":\"" + b + "\"}";
+    return std::string("{\"t\":\"obj\",\"mod\":") + std::to_string((int)c->typeId()) + ",\"modn\":" + vj::q(c->typeIdName()) + ",\"h\":\"" + b + "\"}";
   }
   default: return "{\"t\":\"other\"}";
   }
@@ -263,6 +263,21 @@ static std::string retJson(Context& ctx) {
   return o;
 }
 
+// environment-specific paths in generated texts: @MOD:name@ -> path of the module library, @INC@ -> an include file
+static std::string subst(std::string t) {
+  const char* mods = getenv("BLOC_MODULES");
+  const char* inc = getenv("VDRIVE_INC");
+  size_t p;
+  while ((p = t.find("@MOD:")) != std::string::npos) {
+    size_t e = t.find('@', p + 5);
+    if (e == std::string::npos) break;
+    std::string n = t.substr(p + 5, e - p - 5);
+    t.replace(p, e - p + 1, std::string(mods ? mods : ".") + "/" + n + "/libbloc_" + n + ".so");
+  }
+  while ((p = t.find("@INC@")) != std::string::npos) t.replace(p, 5, inc ? inc : "/nonexistent");
+  return t;
+}
+
 static std::string doStep(const vj::Val& st) {
   std::string op = st.str("op");
   int id = (int)st.num("ctx", 0);
@@ -275,7 +290,7 @@ static std::string doStep(const vj::Val& st) {
     }
     else if (op == "exec" || op == "parse") {
       Ctx& c = getCtx(id);
-      StringReader rd(st.str("text"));
+      StringReader rd(subst(st.str("text")));
       Executable* ex = nullptr;
       std::string oc = "ok"; int no = 0; std::string name, msg;
       try {
@@ -354,6 +369,14 @@ static std::string doStep(const vj::Val& st) {
       per += "]";
       o += ",\"oc\":" + vj::q(oc) + ",\"no\":" + std::to_string(no) + ",\"name\":" + vj::q(name) + ",\"nst\":" + std::to_string(nst);
       o += ",\"per\":" + per + ",\"out\":" + vj::q(drainOut(c)) + ",\"rv\":" + retJson(*c.ctx) + "," + stateJson(*c.ctx);
+    }
+    else if (op == "unban") {
+      PluginManager::instance().unbanPlugin(st.str("m"));
+      o += ",\"oc\":\"ok\"";
+    }
+    else if (op == "clearperm") {
+      PluginManager::instance().clearPermissions();
+      o += ",\"oc\":\"ok\"";
     }
     else if (op == "dump") {
       Ctx& c = getCtx(id);
@@ -489,6 +512,8 @@ static std::string doStep(const vj::Val& st) {
 
 static void freeAll() {
   while (!g_ctx.empty()) freeCtx(g_ctx.begin()->first);
+  /* process-wide registry: every scenario starts with no module loaded and nothing granted */
+  PluginManager::destroy();
 }
 
 extern "C" int __lsan_do_recoverable_leak_check(void) __attribute__((weak));
